@@ -479,12 +479,18 @@ impl S3 for FileSystem {
                 }
             }
             let object_path = self.get_object_path(&bucket, &key)?;
+            if self.get_bucket_path(&bucket)?.exists().not() {
+                return Err(s3_error!(NoSuchBucket));
+            }
             try_!(fs::create_dir_all(&object_path).await);
             let output = PutObjectOutput::default();
             return Ok(S3Response::new(output));
         }
 
         let object_path = self.get_object_path(&bucket, &key)?;
+        if self.get_bucket_path(&bucket)?.exists().not() {
+            return Err(s3_error!(NoSuchBucket));
+        }
         let mut file_writer = self.prepare_file_write(&object_path).await?;
 
         let mut md5_hash = Md5::new();
@@ -546,6 +552,10 @@ impl S3 for FileSystem {
         req: S3Request<CreateMultipartUploadInput>,
     ) -> S3Result<S3Response<CreateMultipartUploadOutput>> {
         let input = req.input;
+        let _ = self.get_object_path(&input.bucket, &input.key)?;
+        if self.get_bucket_path(&input.bucket)?.exists().not() {
+            return Err(s3_error!(NoSuchBucket));
+        }
         let upload_id = self.create_upload_id(req.credentials.as_ref()).await?;
 
         if let Some(ref metadata) = input.metadata {
@@ -747,6 +757,9 @@ impl S3 for FileSystem {
         }
 
         let object_path = self.get_object_path(&bucket, &key)?;
+        if self.get_bucket_path(&bucket)?.exists().not() {
+            return Err(s3_error!(NoSuchBucket));
+        }
 
         // validate the part list before anything is changed: a rejected request leaves the upload as it was
         let parts = multipart_upload.parts.unwrap_or_default();
